@@ -70,12 +70,11 @@ func genBatchProjects(root string, seed uint64, nProj int, tagProp string) ([]*S
 		if i%3 == 2 && !sc.AutoSow && !sc.AutoHarvest && !sc.AutoFert && !sc.AutoIrr {
 			// a crop code that is not a system crop exercises the per-run dynamic crop lookup: its parameter file is a copy of
 			// a shipped one under a new name in a parameter folder of its own
-			for k := 1; k < len(sc.Rotation); k++ {
-				if sc.Rotation[k].Variety == "" {
-					customCrop = sc.Rotation[k].Crop
-					sc.Rotation[k].Crop = fmt.Sprintf("Q%c%d", 'A'+rune(i%20), i%10)
-					break
-				}
+			// the first crop of the rotation: it is sown (and its parameter file read) inside the run
+			if len(sc.Rotation) > 1 && sc.Rotation[1].Sow.Zeit() < sc.End.Zeit()-30 {
+				customCrop = sc.Rotation[1].Crop
+				sc.Rotation[1].Variety = ""
+				sc.Rotation[1].Crop = fmt.Sprintf("Q%c%d", 'A'+rune(i%20), i%10)
 			}
 		}
 		resDummy := filepath.Join(root, "res_unused")
@@ -84,9 +83,12 @@ func genBatchProjects(root string, seed uint64, nProj int, tagProp string) ([]*S
 			return nil, nil, err
 		}
 		if customCrop != "" {
-			pdir := fmt.Sprintf("param_%s", sc.Project)
-			if err := linkParamFolder(filepath.Join(root, pdir), nil); err != nil {
-				return nil, nil, err
+			// one parameter folder shared by all lines with their own crop codes (a name mix-up then silently reads another crop's file)
+			pdir := "param_custom"
+			if _, err := os.Stat(filepath.Join(root, pdir)); err != nil {
+				if err := linkParamFolder(filepath.Join(root, pdir), nil); err != nil {
+					return nil, nil, err
+				}
 			}
 			newCode := ""
 			for _, e := range sc.Rotation {
